@@ -242,6 +242,8 @@ class Loader(object):
                         setattr(m, f, sub)
                 return m
             top = name.split(".")[0]
+            if not fromlist and "." in name and top in self.stubs:
+                return self.stubs[top]          # `import a.b` binds a
             if name in self.stubs:
                 return self.stubs[name]
             if top == "numpy":
